@@ -292,6 +292,9 @@ def run(run: Run):
     calling_forms(run)
     request_setup_lines(run)
     service_lookup(run)
+    run.native_standin("props.C14_native", "extra_layouts",
+                       "BOUNDED: internal methods embed the sample of their own kind; a request type of a proto-plus dependency package is built from that package",
+                       group="native.C14:extra-layouts")
     run.native_standin("props.C14_native", "scenarios",
                        "8 rpcs (unary with required fields of every kind + oneof + resource reference, paged, LRO, server / client / bidi streaming, void, request from "
                        "another package) x sync/asyncio: compile, run against a loopback channel, decode the request, compare metadata and docstring with the file")
